@@ -73,3 +73,15 @@ def run(rep, tier, seed):
     liveness(rep, tier)
     T.standard_campaign(rep, "C12", tier, seed, tables=["pause", "stop", "sync", "wait"])
     real_criteria(rep, tier, seed)
+    from harness.props import real_sched, sim_tuner
+    real_sched.campaign(rep, "C12", tier, seed)
+    # simulated experiments: count criteria alone (two-sided) and combined with a (simulated) wall-clock limit, where
+    # SimulatorCallback rewrites the criterion (one-sided: when the count criterion holds the loop must stop)
+    crit = [({"max_num_trials_started": 7}, "started", 7, False),
+            ({"max_num_trials_finished": 4}, "finished", 4, False),
+            ({"max_num_trials_completed": 2}, "completed", 2, False),
+            ({"max_wallclock_time": 400.0, "max_num_trials_finished": 3}, "finished", 3, True),
+            ({"max_wallclock_time": 400.0, "max_num_trials_completed": 2}, "completed", 2, True),
+            ({"max_wallclock_time": 400.0, "max_num_trials_started": 6}, "started", 6, True),
+            ({"max_wallclock_time": 6.0, "max_num_trials_started": 30}, "started", 30, True)]
+    sim_tuner.campaign_tunerloop(rep, "C12", tier, seed, crit)
